@@ -51,6 +51,7 @@ def atom_malformations(atom, uni, rng):
         out.append(("ion-two-signs", "%s{%d%s%s}" % (base, n, sg, sg)))
         if isolist and not atom.alias:
             out.append(("ion-before-isotope", "%s{%d%s}[%d]" % (sym, n, sg, isolist[0])))
+    units = {"cm", "mm", "nm", "um", "ng", "ug", "mg", "kg", "g", "l", "ml", "ul", "nl"}
     out.append(("ion-zero", "%s{0+}" % base))
     out.append(("ion-empty", "%s{}" % base))
     if len(sym) == 1:
@@ -58,7 +59,8 @@ def atom_malformations(atom, uni, rng):
     else:
         out.append(("symbol-lowercase", sym.lower() + ion))
         out.append(("symbol-uppercase", sym.upper() + ion) if sym.upper() not in _valid_pairs(eb, sym.upper()) else ("skip", ""))
-    return [x for x in out if x[0] != "skip"]
+    # a lower-cased symbol that spells a unit turns some contexts into a mixture quantity ("2cm O"): not a malformation
+    return [x for x in out if x[0] != "skip" and not (x[0] == "symbol-lowercase" and sym.lower() in units)]
 
 
 def _valid_pairs(eb, s):
@@ -144,6 +146,7 @@ def run(ctx):
                 if "exc" not in got:
                     ctx.violation({"kind": "parse", "clause": "MalformedMustBeRejected", "malformation": kind[4:],
                                    "string": s, "table": T, "got": got.get("str")})
+    edited_leg(ctx, rng, uni, [x[0] for x in items if x[2] == "valid" and x[1] == "public"], quick)
     ctx.count("valid strings", nvalid)
     ctx.count("malformed strings", nmal)
     ctx.cov["traces_validated_against_impl"] = nvalid + nmal
@@ -157,6 +160,64 @@ def run(ctx):
                        "formula() on the public or a private table and atoms/charge/density are compared with the spec's "
                        "denotation; malformed variants must raise. distinct_nontrivial = distinct strings")
     ctx.cov["exhaustive"] = False
+
+
+EDIT_TOKENS = ["(", ")", "[", "]", "{", "}", "+", " ", "2", "0", "10", "0.5", ".", "1.", "[2]", "[18]", "[056]", "{2+}", "{-}", "{+}", "{3}", "{+2}",
+               "H", "O", "Fe", "Co", "D", "T", "Xx", "Q", "x", "q", "#", "!", "=", ",", "_", "@", "@2", "@1.5n", "@n", "@0", "-", "e3", "{0+}", "[]", "{}"]
+
+
+def edits(rng, s, n):
+    """n random character-level edits with pieces of the token alphabet (insert / delete / replace / duplicate)."""
+    for _ in range(n):
+        k = rng.random()
+        i = rng.randint(0, len(s))
+        if k < 0.45:
+            s = s[:i] + rng.choice(EDIT_TOKENS) + s[i:]
+        elif k < 0.7 and s:
+            j = min(len(s), i + rng.randint(1, 3))
+            s = s[:i] + s[j:]
+        elif k < 0.9 and s:
+            j = min(len(s), i + rng.randint(1, 2))
+            s = s[:i] + rng.choice(EDIT_TOKENS) + s[j:]
+        else:
+            j = min(len(s), i + rng.randint(1, 4))
+            s = s[:j] + s[i:j] + s[j:]
+    return s
+
+
+def edited_leg(ctx, rng, uni, valid_strings, quick):
+    """code -> spec: edited strings are parsed by the code; Trace_Parse decides from the tokens what must happen."""
+    from .. import tracecheck
+    n = 4000 if quick else 60000
+    base = [s for s in valid_strings if len(s) < 60]
+    strs = set()
+    for i in range(n):
+        s = rng.choice(base)
+        strs.add(edits(rng, s, rng.choice([0, 1, 1, 2, 3])))
+    import re
+    # outside this leg: prefix routes and mixtures (':', '%', '/'), blanks inside [..] or {..} tags and a leading blank
+    # (the documentation is silent about them), and unit-like lower-case runs after a number (mixture quantities)
+    silent = re.compile(r"[\[{][^\]}]*\s|\s[\]}]|^\s|\s$|[0-9.]\s*(?:[numkc]?[gLm]|[num]L)\b")
+    strs = sorted(x for x in strs if ":" not in x and "%" not in x and "/" not in x and not silent.search(x))
+    items = [{"id": "e%d" % i, "s": s} for i, s in enumerate(strs)]
+    outs = forkrun.map_fresh("ptv.formexec", "observe_parse", [{"items": items[i::32]} for i in range(32)])
+    events = []
+    for st, evs in outs:
+        if st != "ok":
+            ctx.error("observe_parse failed: " + evs[-400:])
+            return
+        events += evs
+    eb, isos = uni["eb"], uni["isos"]
+    header = {"symz": dict((v[1], z) for z, v in eb.items() if z >= 1),
+              "isos": dict((str(z), isos.get(z, [])) for z in eb), "ions": dict((str(z), list(v[2])) for z, v in eb.items())}
+    rejected = tracecheck.validate(ctx, "Trace_Parse", header, events, name="Trace_Parse")
+    bys = dict((it["id"], it["s"]) for it in items)
+    byev = dict((e["id"], e) for e in events)
+    ctx.count("edited strings (code -> spec)", len(events))
+    ctx.cov["edited_strings_accepted_by_code"] = sum(1 for e in events if "exc" not in e["res"])
+    for i, x in sorted(rejected.items()):
+        ctx.violation({"kind": "parse", "clause": x["clause"], "string": bys[i], "table": "public",
+                       "got": byev[i]["res"].get("exc", "accepted")})
 
 
 def check_valid(ctx, s, T, exp, meta, got):
